@@ -59,7 +59,7 @@ NESTS = ('dict', 'dictattr', 'Dict', 'OrderedDict', 'defaultdict', 'SubD', 'SubD
 def tagv(v):
     """a value of a mapping: a nested mapping of any dict class is ["m", {key: value}] (a deep snapshot), anything else a tagged value"""
     if isinstance(v, dict):
-        return ['m', {str(k): tagv(x) for k, x in dict.items(v)}]
+        return ['m', {str(k): tagv(x) for k, x in v.items()}]
     return tag(v)
 
 
@@ -67,7 +67,7 @@ def untagv(v, nest='dict'):
     if v[0] == 'm':
         d = api()['nests'][nest]()
         for k, x in objmap(v[1]).items():
-            dict.__setitem__(d, k, untagv(x, nest))
+            d[k] = untagv(x, nest)                  # (through the class's own __setitem__: an OrderedDict keeps its order beside the dict)
         return d
     return untag(v)
 
